@@ -2,6 +2,8 @@
 import reactivex as rx
 from reactivex.observable.marbles import parse
 
+from datetime import timedelta
+
 from simlib import models, vt
 from simlib.core import Outcome
 
@@ -112,7 +114,8 @@ class Prop:
                 "shift": rng.choice([0, 0, 0, 5, 0.5]), "lookup": rng.random() < 0.4, "form": rng.choice(["parse", "from_marbles", "cold", "hot"]),
                 "raise_stopped": rng.random() < 0.5, "sub_t": 203.25, "horizon": 1000,
                 # delivery forms: optionally a second, overlapping subscriber of the same observable, and an early unsubscription of the first
-                "sub2_off": rng.choice([None, None, 0.75, 3, 12.5, 40]), "unsub1_after": rng.choice([None, None, None, 2.25, 15, 33])}
+                "sub2_off": rng.choice([None, None, 0.75, 3, 12.5, 40]), "unsub1_after": rng.choice([None, None, None, 2.25, 15, 33]),
+                "shift_abs": rng.random() < 0.3}  # hot: the shift is given as an absolute datetime (the same instant)
 
     def execute(self, sc):
         out = Outcome()
@@ -148,7 +151,8 @@ class Prop:
         def create():
             try:
                 if sc["form"] == "hot":
-                    box["obs"] = rx.hot(s, ts, shift, lookup=lookup, error=err, scheduler=w.s)
+                    due = (vt.UTC0 + timedelta(seconds=t_create + shift)) if sc.get("shift_abs") else shift
+                    box["obs"] = rx.hot(s, ts, due, lookup=lookup, error=err, scheduler=w.s)
                 else:
                     f = rx.from_marbles if sc["form"] == "from_marbles" else rx.cold
                     box["obs"] = f(s, ts, lookup=lookup, error=err, scheduler=w.s)
